@@ -189,10 +189,10 @@ Proof.
       destruct brk; cbn [orb].
       * cbn [fst snd]. split; [reflexivity|]. split; [intros _; apply Ibrk; reflexivity|discriminate].
       * specialize (Inb eq_refl). clear Ibrk.
-        replace (a_start - j - 1)%nat with (length a - 1 - (a_out + j))%nat by (unfold a_out, asz in *; lia).
+        replace (a_start - j - 1)%nat with (length a - 1 - (a_out + j))%nat by (clear - Hj Hast; unfold a_out, asz in *; lia).
         set (t := (a_out + j)%nat).
-        assert (Ht : (t < length a)%nat) by (unfold t, a_out, asz in *; lia).
-        assert (Htl : zn t + 1 <= zn (length a) - lo) by (unfold t, a_out, asz, zn in *; lia).
+        assert (Ht : (t < length a)%nat) by (clear - Hj Hast; unfold t, a_out, asz in *; lia).
+        assert (Htl : zn t + 1 <= zn (length a) - lo) by (clear - Hj Hast Eaend Hlo; unfold t, a_out, asz, zn in *; lia).
         (* common ending: from the entry invariant of the actual inner-loop state *)
         assert (Hfin : forall st,
           EntryW wd rb ab a lsh rsz z g t st ->
@@ -206,7 +206,7 @@ Proof.
              (S j = 0%nat /\ fst (fst acc') = s0) \/
              ((1 <= S j)%nat /\ OuterW wd rb ab a lsh rsz z g (a_out + S j) (fst (fst acc'))))).
         { intros st HE. cbv zeta.
-          destruct (entry_stepW wd rb ab Hrb Hab a lsh Hl rsz z g lo Hz Hg Hzg Hlo' Hgeo' t st fuel HE Ht Htl Hfuel)
+          destruct (entry_stepW wd rb ab Hrb Hab a lsh rsz z g lo Hz Hg Hzg Hlo' Hgeo' t st fuel HE Ht Htl Hfuel)
             as (C1 & C2 & C3). cbv zeta in C1, C2, C3.
           destruct (cross_inner wd fuel rb ab (length a - 1 - t) st) as [s3 [| |]]; cbn [fst snd] in *.
           - split; [reflexivity|]. split; [discriminate|]. intros _. right. split; [lia|].
@@ -251,7 +251,7 @@ Proof.
       assert (HF : C08CrossOuter.Final rb ab a lsh rsz z g (c_res s)).
       { destruct brk; [apply I2; reflexivity|].
         destruct (I3 eq_refl) as [[E _]|[_ HO]]; [lia|].
-        apply (outer_finalW wd rb ab Hab a lsh rsz z g Hz Hg lo (a_out + (a_start - a_end)) s Hlo Hgeo'); [|exact HO].
+        apply (outer_finalW wd rb ab Hab a lsh Hl rsz z g Hz Hg lo (a_out + (a_start - a_end)) s Hlo Hgeo'); [|exact HO].
         unfold a_out, asz, zn in *. lia. }
       exists (c_res s). split; [reflexivity|]. split; [apply HF|].
       intros P HP. rewrite <- Eoff in HP |- *.
